@@ -24,6 +24,9 @@ Next == \/ /\ phase = "hub" /\ phase' = "text" /\ text' \in {<<l>> : l \in TextL
         \/ /\ phase = "text" /\ Len(text) <= 2 /\ phase' = "resign" /\ first' \in FirstSeqs /\ known' \in ResignKnown
            /\ signers' \in SignerSeqs \ {<<>>} /\ UNCHANGED text
            /\ \E i \in 1..Len(first') : first'[i] \in known'.keys
+        \* the limit on the number of signature lines (100): one good signature line repeated
+        \/ /\ phase = "hub" /\ phase' = "many" /\ text' = <<Txt(1)>> /\ signers' \in {<<K1>>} /\ known' \in {[keys |-> {K1}, liar |-> FALSE], [keys |-> {K2}, liar |-> FALSE]}
+           /\ UNCHANGED first
 
 Msg == Sign(text, <<>>, signers)
 \* ---- single structural mutations of a signed message ----
@@ -86,6 +89,13 @@ EmitResign == phase = "resign" =>
                    in |-> [text |-> text, first |-> [i \in 1..Len(first) |-> first[i].id], known |-> {v.id : v \in known.keys},
                            second |-> [i \in 1..Len(signers) |-> signers[i].id]],
                    exp |-> [keys |-> SigKeys(Resign(text, first, known, signers))]]))
+
+ManyMsg(n) == LET m == Sign(text, <<>>, signers)
+                  s == m.lines[Len(m.lines)]
+              IN [m EXCEPT !.lines = SubSeq(m.lines, 1, Len(m.lines) - 1) \o [i \in 1..n |-> s]]
+EmitMany == phase = "many" => \A n \in {1, 2, 99, 100, 101, 102} :
+    PrintT(ToJson([w |-> "note", k |-> "open", in |-> [msg |-> ManyMsg(n), known |-> [keys |-> {v.id : v \in known.keys}, liar |-> known.liar], mutated |-> TRUE],
+                   exp |-> Open(ManyMsg(n), known)]))
 
 Emit == phase = "case" => \A m \in AllMsgs :
     PrintT(ToJson([w |-> "note", k |-> "open", in |-> [msg |-> m, known |-> [keys |-> {v.id : v \in known.keys}, liar |-> known.liar], mutated |-> m # Msg],
